@@ -262,6 +262,9 @@ func init() {
 					kv += fmt.Sprintf(" rm=%d", 1+r.Intn(3))
 				}
 			}
+			if r.Intn(2) == 0 { // the subscriber carries a will: a normal DISCONNECT must never publish it (C16)
+				kv += fmt.Sprintf(" will=%s:%s:%d:0:0", hs("x"), hs("wsub"), r.Intn(2))
+			}
 			emit(fmt.Sprintf("bk.conn 1 %d 0 %s%s", subVer, hs("sub"), kv))
 			q := 1 + r.Intn(2)
 			emit(fmt.Sprintf("bk.send 1 SUBSCRIBE id=100 f=%s:%d,%s:%d", hs("a/#"), q, hs("x"), q))
@@ -289,7 +292,11 @@ func init() {
 					}
 				case k < 18:
 					if subOpen {
-						emit(fmt.Sprintf("bk.drop %d", subConn))
+						if r.Intn(3) == 0 {
+							emit(fmt.Sprintf("bk.send %d DISCONNECT", subConn))
+						} else {
+							emit(fmt.Sprintf("bk.drop %d", subConn))
+						}
 						subOpen = false
 					} else {
 						subConn = next
